@@ -524,8 +524,50 @@ def two_requests(r, k, n):
 
 
 # ---------------------------------------------------------------- shards
+def big_bodies(r):
+    """Bodies around the read size of the WSGI stream (4096 * 16): exact equality and exact chunk accounting on both interfaces."""
+    D = 4096 * 16
+    from baize.wsgi import Request as WReq
+    from baize.asgi import Request as AReq
+    for size in (D - 1, D, D + 1, 2 * D, 2 * D + 1):
+        B = bytes(i % 253 for i in range(size))
+        for chunks in ([B], [B[:D], B[D:]], [B[:1], B[1:]], [B[:D - 1], B[D - 1:D + 1], B[D + 1:]], [B[i:i + 20000] for i in range(0, size, 20000)]):
+            chunks = [c for c in chunks if c] or [b""]
+            areq = SV.AReq(method="POST", headers=[("Content-Type", "application/octet-stream")], chunks=chunks)
+            for iface in ("wsgi", "asgi"):
+                r.count("evaluations")
+                r.count("distinct_nontrivial")
+                w = {"mode": "big", "size": size, "chunks": [len(c) for c in chunks], "iface": iface}
+                try:
+                    if iface == "wsgi":
+                        req = WReq(SV.to_environ(areq))
+                        got = [req.body, b"".join(req.stream())]
+                    else:
+                        msgs = SV.to_messages(areq)
+                        with Session() as s:
+                            i = [0]
+
+                            async def receive():
+                                i[0] += 1
+                                if i[0] > len(msgs):
+                                    await s.env.gate("never")
+                                return dict(msgs[i[0] - 1])
+                            req = AReq(SV.to_scope(areq), receive)
+
+                            async def prog():
+                                return [await req.body, b"".join([c async for c in req.stream()])]
+                            got = s.run_to_completion(prog()).result()
+                except Exception as e:  # noqa
+                    r.violation(f"big-body:{iface}:exception", w, f"{iface} body of {size} bytes in chunks {w['chunks']}: raised {e!r:.100}")
+                    continue
+                if got != [B, B]:
+                    r.violation(f"big-body:{iface}", w, f"{iface} body of {size} bytes in chunks {w['chunks']}: body has {len(got[0])} bytes, replayed stream {len(got[1])} bytes")
+    r.count("states", 1)
+    r.sample({"big_bodies": [D - 1, D, D + 1, 2 * D, 2 * D + 1]})
+
+
 def shards(tier, seed):
-    out = [("two", k, 8) for k in range(8)]
+    out = [("big",)] + [("two", k, 8) for k in range(8)]
     for iface in ("wsgi", "asgi"):
         for kind in KINDS:
             out.append(("seq", iface, kind))
@@ -539,6 +581,9 @@ def shards(tier, seed):
 
 def run_shard(desc, tier):
     r = R()
+    if desc[0] == "big":
+        big_bodies(r)
+        return r
     if desc[0] == "two":
         two_requests(r, desc[1], desc[2])
         return r
@@ -604,6 +649,10 @@ def finish(merged, tier):
 
 
 def replay(w):
+    if w["mode"] == "big":
+        r = R()
+        big_bodies(r)
+        return bool(r.viol), {"violations": sorted(r.viol)}
     if w["mode"] == "two":
         x = run_two_requests(list(w["schedule"]), tuple(w["kinds"]), tuple(tuple(a) for a in w["accessors"]))
         solo = [run_sequence_asgi(k, [KINDS[k][0]], tuple(a), None)[2] for k, a in zip(w["kinds"], w["accessors"])]
